@@ -75,7 +75,23 @@ var scalars = []types.Value{
 	must(types.ParseDecimal("1.0")),       // 18
 	types.NewDatetimeFromMillis(0),        // 19
 	must(types.ParseDuration("0ms")),      // 20
+	// other spellings / constructions of values above: equal to their canonical entry (see canon)
+	must(types.ParseIPAddr("10.0.0.1/32")),                    // 21 = 15
+	must(types.ParseDecimal("1.0000")),                        // 22 = 18
+	must(types.NewDecimalFromInt(1)),                          // 23 = 18
+	must(types.ParseDuration("1s")),                           // 24 (canonical for 25, 26)
+	must(types.ParseDuration("1000ms")),                       // 25 = 24
+	types.NewDurationFromMillis(1000),                         // 26 = 24
+	must(types.ParseDatetime("1970-01-01T00:00:00.001Z")),     // 27 = 4
+	must(types.ParseDatetime("1970-01-01T01:00:00.001+0100")), // 28 = 4
+	must(types.ParseIPAddr("::1")),                            // 29 (canonical for 30)
+	must(types.ParseIPAddr("0:0:0:0:0:0:0:1")),                // 30 = 29
+	must(types.ParseDuration("1ms")),                          // 31 = 3
+	must(types.NewDecimal(1, -4)),                             // 32 = 2
 }
+
+// canon maps a universe index to the index of the canonical spelling of the same value.
+var canon = map[int]int{21: 15, 22: 18, 23: 18, 25: 24, 26: 24, 27: 4, 28: 4, 30: 29, 31: 3, 32: 2}
 
 const family = 8 // scalars[0..4] collide; 5..7 neighbours
 
@@ -91,7 +107,12 @@ type mval struct {
 	fields map[string]*mval
 }
 
-func mscalar(i int) *mval { return &mval{kind: 's', idx: i} }
+func mscalar(i int) *mval {
+	if c, ok := canon[i]; ok {
+		i = c
+	}
+	return &mval{kind: 's', idx: i}
+}
 
 func meq(a, b *mval) bool {
 	if a.kind != b.kind {
